@@ -1,6 +1,8 @@
 package overloader
 
 import (
+	"errors"
+	"net"
 	"fmt"
 	"time"
 
@@ -307,9 +309,8 @@ func VX_C18_SlotAfterCloseAndLoss(args []int) {
 	liveN := N - 1
 	vxAssert(p.CountSession() == liveN, "the ended session left the index")
 	// new connections: exactly one more fits
-	// (two attempts only: a rejected attempt wrongly gives back a slot - recorded finding - which is not what is judged here)
 	admitted := 0
-	for k := 0; k < 2; k++ {
+	for k := 0; k < 4; k++ {
 		c := newVxConn("srv:1", fmt.Sprintf("new:%d", k))
 		_, st := p.ServeConn(c)
 		if st.OK() {
@@ -398,19 +399,76 @@ func VX_C18_UpdateLimits(args []int) {
 		live = append(live, s)
 	}
 	o.Update(LimitConfig{MaxConn: int32(N1)})
-	// sessions end one by one; after each, one newcomer knocks
-	for len(live) > 0 {
+	// sessions end one by one; after each, one newcomer knocks (admitted or rejected)
+	for round := 0; round < N0+2 && len(live) > 0; round++ {
 		live[0].Close()
 		live = live[1:]
 		vxWaitIdle()
-		s, st := p.ServeConn(newVxConn("srv:1", fmt.Sprintf("new:%d", len(live))))
+		s, st := p.ServeConn(newVxConn("srv:1", fmt.Sprintf("new:%d", round)))
 		if st.OK() {
 			live = append(live, s)
-			vxAssert(len(live) <= N1, "after the limit was lowered nobody is admitted beyond the new limit")
-			break // (a rejected newcomer wrongly gives back a slot - recorded finding - so stop at the first admission)
 		}
 		vxWaitIdle()
-		break
+		vxAssert(len(live) <= N1 || len(live) < N0-round, "after the limit was lowered nobody is admitted beyond the new limit")
+		if st.OK() {
+			vxAssert(len(live) <= N1, "after the limit was lowered nobody is admitted beyond the new limit")
+		}
 	}
 	vxCover("c18.update-limits")
+}
+
+func init() { vxRegister("VX_C18_DialSide", VX_C18_DialSide) }
+
+// VX_C18_DialSide: the plugin on a dialling peer with redial enabled and a
+// connection limit of N=1: a session whose redial attempts are exhausted ends
+// and gives its slot back; another session is dialled and admitted; when the
+// server is reachable again a call on the ended session must not bring the
+// number of admitted live sessions above N. args: serverBack(0 stays down, 1 comes back before the later call)
+func VX_C18_DialSide(args []int) {
+	o := New(LimitConfig{MaxConn: 1})
+	p := erpc.NewPeer(erpc.PeerConfig{RedialTimes: 1}, o)
+	up := true
+	var conns []*vxConn
+	erpc.VXSetDialHook(func(addr string) (net.Conn, error) {
+		if !up {
+			return nil, errors.New("connection refused")
+		}
+		c := newVxConn(fmt.Sprintf("cli:%d", len(conns)), addr)
+		conns = append(conns, c)
+		return c, nil
+	})
+	defer erpc.VXSetDialHook(nil)
+	s1, st := p.Dial("srv:1")
+	vxAssert(st.OK(), "the first dial is admitted")
+	if !st.OK() {
+		return
+	}
+	vxWaitIdle()
+	_, st = p.Dial("srv:1")
+	vxAssert(!st.OK(), "a second dial beyond the limit is refused")
+	up = false
+	conns[0].end()
+	vxWaitIdle()
+	ended := false
+	select {
+	case <-s1.CloseNotify():
+		ended = true
+	default:
+	}
+	vxAssert(ended && p.CountSession() == 0, "[C13] redial attempts exhausted: the session ended (close notification fired, left the index)")
+	up = true
+	s2, st := p.Dial("srv:1")
+	vxAssert(st.OK(), "the ended session's slot was released: a new dial is admitted")
+	if !st.OK() {
+		return
+	}
+	vxWaitIdle()
+	if args[0] == 0 {
+		up = false
+	}
+	s1.AsyncCall("/x", []byte("q"), new([]byte), make(chan erpc.CallCmd, 1))
+	vxWaitIdle()
+	_ = s2
+	vxAssert(p.CountSession() <= 1, "never more than N sessions are live on the peer (a later call on an ended session must not revive it beside its successor without a slot)")
+	vxCover("c18.dial-side")
 }
